@@ -5,8 +5,8 @@
  *  part 1  every name of the grammar  label := c^L, c in {a,Z,0,-}, L in {1,2,62,63},
  *          name := 1..4 labels  (69904 names, text length 1..255) through the raw and
  *          the message-level label encoder/decoder;
- *  part 2  every section-ordered sequence of <= 3 (thorough: 4) add operations from a
- *          19-symbol alphabet, into a heap buffer of EVERY size 12 .. exactly-fits+1.
+ *  part 2  every section-ordered sequence of <= 4 (thorough: 5) add operations from an
+ *          18-symbol alphabet, into a heap buffer of EVERY size 12 .. exactly-fits+1.
  *          Each add runs on the real builder; after it the full oracle is evaluated.
  *
  * How the builders are used mirrors src/proto/dns_resolv.c:dns_resolver_send():
@@ -296,7 +296,7 @@ ref_encode(const int *rec, int nrec, uint8_t *out) {
 }
 
 /* ------------------------------------------------------------------ one (sequence, capacity) case */
-static int cur_seq[4], cur_len; static size_t cur_cap; static int cur_step;
+static int cur_seq[5], cur_len; static size_t cur_cap; static int cur_step;
 static void
 desc_seq(char *b, size_t n) {
 	int i; size_t o = 0;
@@ -305,7 +305,7 @@ desc_seq(char *b, size_t n) {
 	if (o < n) o += (size_t)snprintf(b + o, n - o, "] step=%d", cur_step);
 }
 
-#define MAXMSG 2400
+#define MAXMSG 3000
 static uint8_t ref_buf[MAXMSG], prev_buf[MAXMSG];
 
 static int
@@ -365,7 +365,7 @@ full_oracle(const char *fn, dns_hdr_p hdr, size_t msg_size, const int *rec, int 
 
 static void
 seq_case(const int *seq, int len, size_t cap) {
-	uint8_t *buf; dns_hdr_p hdr; size_t msg_size = 0; int rec[4], nrec = 0, i, rc, bad = 0, ok = 0; char cl[96];
+	uint8_t *buf; dns_hdr_p hdr; size_t msg_size = 0; int rec[5], nrec = 0, i, rc, bad = 0, ok = 0; char cl[96];
 	static const char *FN[3] = { "dns_msg_question_add", "dns_msg_rr_add", "dns_msg_optrr_add" };
 
 	if (!vh_begin("dns_msg_add_sequence")) return;
@@ -469,13 +469,13 @@ observe_opt_layout(void) {
 
 int
 main(int argc, char **argv) {
-	int seq[4];
+	int seq[5];
 	vh_init(argc, argv);
 	ops_init();
 	hdr_cases();
 	names_all();
 	vh_set_describer(desc_seq);
-	seq_rec(seq, 0, vh_thorough ? 4 : 3, sizeof(dns_hdr_t));
+	seq_rec(seq, 0, vh_thorough ? 5 : 4, sizeof(dns_hdr_t));
 	vh_set_describer(NULL);
 	if (0 == vh_shard && NULL == vh_only_target) observe_opt_layout();
 	st_dump(argv[0], "dns");
